@@ -145,5 +145,5 @@ func selfTest() error {
 	if a.OK || k.result(dInf, big.NewInt(9), rr, big.NewInt(11), ecref.DefaultUID, ecref.DefaultUID, 16).OK {
 		return fmt.Errorf("c08: t = 0 tuple not refused by the references")
 	}
-	return nil
+	return selfTestWiden()
 }
